@@ -77,6 +77,7 @@ type transSpec struct {
 	yieldTy string // Lean type of that local
 	state   string // a local pointer variable of the translated range that is modified through: it becomes the function's state (like a modified receiver) and its result
 	as      string // name of the generated definition (default: the Go function's name)
+	inside  string // when non-empty: the translated statements are the body of the first top-level `if` whose source starts with this text
 	trace   bool   // an HTTP handler without results: the definition returns the list of effects on the ResponseWriter, in order
 }
 
@@ -679,6 +680,17 @@ func (t *trans) call(c *ast.CallExpr) string {
 				s, _ := strconv.Unquote(bl.Value)
 				return "(some " + leanStr(s) + ")"
 			}
+		case "bcrypt.CompareHashAndPassword":
+			if len(c.Args) == 2 {
+				pw := c.Args[1]
+				if conv, ok := pw.(*ast.CallExpr); ok && len(conv.Args) == 1 {
+					if _, isArr := conv.Fun.(*ast.ArrayType); isArr {
+						pw = conv.Args[0] // []byte(s): the same octets
+					}
+				}
+				t.addExtern("bcryptCompare", "(List UInt8) → String → GoError")
+				return "(env.bcryptCompare " + t.expr(c.Args[0]) + " " + t.expr(pw) + ")"
+			}
 		case "time.Now", "saml.TimeNow":
 			t.useNow = true
 			return "env.timeNow"
@@ -708,6 +720,10 @@ func (t *trans) call(c *ast.CallExpr) string {
 			if inner, ok := f.X.(*ast.SelectorExpr); ok && inner.Sel.Name == "Form" {
 				t.addExtern("formGet", "HTTPRequest → String → String")
 				return "(env.formGet " + t.derefd(inner.X) + " " + t.expr(c.Args[0]) + ")"
+			}
+			if inner, ok := f.X.(*ast.SelectorExpr); ok && inner.Sel.Name == "PostForm" {
+				t.addExtern("postFormGet", "HTTPRequest → String → String")
+				return "(env.postFormGet " + t.derefd(inner.X) + " " + t.expr(c.Args[0]) + ")"
 			}
 		}
 		if f.Sel.Name == "Get" && len(c.Args) == 2 {
@@ -1090,6 +1106,10 @@ func (t *trans) stmt1(o *out, ind int, s ast.Stmt) {
 		if c, ok := x.X.(*ast.CallExpr); ok {
 			if id, ok := c.Fun.(*ast.Ident); ok && id.Name == "panic" {
 				o.line(ind, "Outcome.panic "+t.expr(c.Args[0]))
+				return
+			}
+			// log lines are not part of the behaviour that is modelled
+			if strings.HasSuffix(t.src(c.Fun), ".logger.Printf") {
 				return
 			}
 		}
@@ -1494,6 +1514,20 @@ func (t *trans) function(name string) {
 			bound[n.Name] = true
 		}
 	}
+	if sp.inside != "" {
+		var in *ast.IfStmt
+		for _, st := range body {
+			if is, ok := st.(*ast.IfStmt); ok && strings.HasPrefix(t.src(st), sp.inside) {
+				in = is
+				break
+			}
+		}
+		if in == nil {
+			t.failf("%s: enclosing statement %q not found", name, sp.inside)
+			return
+		}
+		body = in.Body.List
+	}
 	if sp.anchor != "" {
 		start := -1
 		for i, s := range body {
@@ -1808,9 +1842,10 @@ func translate(repo string, p *pkgFiles, outPath string) {
 		idpOut = filepath.Join(filepath.Dir(outPath), "TransSamlidp.lean")
 	}
 	idpSpecs := []transSpec{
+		{fn: "GetSession", recv: "Server", as: "credentialGuards", trace: true, inside: "if r.Method == \"POST\" && r.PostForm.Get(\"user\") != \"\" {", until: "session := &saml.Session{"},
 		{fn: "GetSession", recv: "Server", as: "cookieSession", trace: true, anchor: "if sessionCookie, err := r.Cookie(\"session\"); err == nil {"},
 	}
-	translatePkg(parseDir(filepath.Join(repo, "samlidp")), idpOut, "samlidp", "SamlVerif.TransI", idpSpecs, map[string]bool{},
+	translatePkg(parseDir(filepath.Join(repo, "samlidp")), idpOut, "samlidp", "SamlVerif.TransI", idpSpecs, map[string]bool{"validPassword": true},
 		&foreignPkg{name: "saml", path: "github.com/crewjam/saml", pkg: rootPkg, p: p})
 	translatePkg(parseDir(filepath.Join(repo, "samlsp")), spOut, "samlsp", "SamlVerif.TransM", spSpecs, map[string]bool{"ParseResponse": true},
 		&foreignPkg{name: "saml", path: "github.com/crewjam/saml", pkg: rootPkg, p: p})
